@@ -82,6 +82,46 @@ def boundary_coeff(rng, p):
 PRECS = [1, 2, 3, 17, 18, 19, 20, 21, 33, 34, 37, 38, 39, 40, 56, 57, 58, 76, 77, 100]
 
 
+def range_edge_cases(rng, count):
+    MINE, MAXE = -2**31, 2**31 - 1
+    for _ in range(count):
+        p = rng.choice(PRECS + [0])
+        mode = rng.randint(0, 5)
+        nd = rng.choice([2, 3, 5, 19, 20, 34, 38, 40])
+        a = common.rand_coeff(rng, nd)
+        nd = ndigits(a)
+        if rng.randint(0, 2):
+            # underflow side: |x| - |y| = d with fewer digits than a
+            d = rng.choice([1, 1, 2, 5, 9, 10, 11, common.rand_coeff(rng, max(1, nd // 2))])
+            d = min(d, a - 1) if a > 1 else 0
+            b = a - d
+            lost = nd - ndigits(d) if d else nd
+            s_ = rng.choice([0, 0, 1, lost - 1, lost, lost + 1, lost + 2])
+            b = max(b, 1)
+            e = MINE - min(nd, ndigits(b)) + max(s_, 0)          # both operands on the grid 10^e, exponents >= MinExp
+            same_sign = False
+        else:
+            # overflow side: |x| + |y| carries (or just does not) at MaxExp
+            b = rng.choice([int("9" * nd) - a, int("9" * nd) - a + 1, a, 1, common.rand_coeff(rng, nd)])
+            b = max(b, 1)
+            e = MAXE - max(nd, ndigits(b)) - rng.choice([0, 0, 0, 1, 2])
+            same_sign = True
+        na = rng.randint(0, 1)
+        opn = rng.choice(["Add", "Sub"])
+        nb = na if same_sign else 1 - na
+        if opn == "Sub":
+            nb = 1 - nb
+        ea = eb = e
+        assert MINE <= e + ndigits(a) <= MAXE and MINE <= e + ndigits(b) <= MAXE
+        x = fin(a, ea, neg=na, mode=rng.randint(0, 5), pad=rng.choice([0, 0, 1]))
+        y = fin(b, eb, neg=nb, mode=rng.randint(0, 5), pad=rng.choice([0, 0, 1]))
+        if rng.randint(0, 1):
+            x, y = y, x          # (y - x cancels / carries exactly when x - y does)
+        z = recv(rng, prec=p, mode=mode)
+        shape = rng.choice(["0 1 2", "0 1 2", "0 2 1", "1 1 2", "2 1 2", "1 2 1", "2 2 1"])
+        yield dict(family="range-edge", vars=[z, x, y], ops=["%s %s" % (opn, shape)])
+
+
 def gen(rng, tier):
     n = 1 if tier == "quick" else 15
     # (i) boundary-directed rounding through Set / SetPrec / Neg / Abs / Add 0 / Mul 1
@@ -127,6 +167,10 @@ def gen(rng, tier):
         shape = rng.choice(["0 1 2", "0 2 1", "1 1 2", "2 1 2", "0 1 1", "1 1 1", "1 2 1", "2 2 1"])
         opn = rng.choice(["Add", "Sub"])
         yield dict(family="addsub-gap", vars=[z, x, y], ops=["%s %s" % (opn, shape)])
+    # (ii-b) sums and differences at the ends of the exponent range: cancellation that underflows (the zero keeps the
+    # sign of the exact result), carries that overflow, and the values just inside
+    for c in range_edge_cases(rng, 200 * n):
+        yield c
     # (iii) Mul / Quo
     for _ in range(500 * n):
         p = rng.choice(PRECS + [0])
